@@ -119,6 +119,26 @@ theorem sizing_pareto_minimal (cat : List (String × Size)) (req : Size)
     rw [heq] at hyle ⊢
     exact sortHead_minimal c cs y.2 hyc hyle
 
+/-- sufficient and minimal are statements about the SAME returned entry -/
+theorem sizing_sufficient_minimal (cat : List (String × Size)) (req : Size)
+    (hex : ∃ e ∈ cat, le3 req e.2 = true) :
+    ∃ e ∈ cat, pick cat req = some e.1 ∧ le3 req e.2 = true ∧
+      ∀ y ∈ cat, le3 req y.2 = true → le3 y.2 e.2 = true → y.2 = e.2 := by
+  obtain ⟨e0, he0, hfit⟩ := hex
+  have hmem : e0.2 ∈ candidates cat req := mem_candidates.mpr ⟨⟨e0, he0, rfl⟩, hfit⟩
+  unfold pick
+  cases hc : candidates cat req with
+  | nil => rw [hc] at hmem; cases hmem
+  | cons c cs =>
+    have hh : sortHead c cs ∈ candidates cat req := by rw [hc]; exact sortHead_mem c cs
+    obtain ⟨hsrc, hle⟩ := mem_candidates.mp hh
+    obtain ⟨e, he, hn, heq⟩ := nameOf_some hsrc
+    refine ⟨e, he, by simpa using hn, by rw [heq]; exact hle, ?_⟩
+    intro y hy hyfit hyle
+    have hyc : y.2 ∈ c :: cs := by rw [← hc]; exact mem_candidates.mpr ⟨⟨y, hy, rfl⟩, hyfit⟩
+    rw [heq] at hyle ⊢
+    exact sortHead_minimal c cs y.2 hyc hyle
+
 /-- **Fallback**: when nothing satisfies the request the last catalogue entry is returned. -/
 theorem sizing_fallback (cat : List (String × Size)) (req : Size)
     (hno : ∀ e ∈ cat, le3 req e.2 = false) : pick cat req = cat.getLast?.map (·.1) := by
@@ -165,6 +185,77 @@ def LastDominates (cat : List (String × Size)) : Bool :=
 
 /-- the fallback entry is the largest size: it dominates every entry -/
 theorem current_last_dominates : LastDominates instanceCatalog = true := by decide +kernel
+
+/-- with a dominating last entry, "no size satisfies the request" is exactly "the request exceeds the largest size in
+SOME dimension" (one is enough) -/
+theorem unsatisfiable_iff_exceeds (cat : List (String × Size)) (hd : LastDominates cat = true) (l : String × Size)
+    (hl : cat.getLast? = some l) (req : Size) :
+    (∀ e ∈ cat, le3 req e.2 = false) ↔ (l.2.core < req.core ∨ l.2.ram < req.ram ∨ l.2.disk < req.disk) := by
+  simp only [LastDominates, hl, List.all_eq_true] at hd
+  constructor
+  · intro h
+    have hm : l ∈ cat := List.mem_of_getLast? hl
+    have := h l hm
+    cases hc : decide (l.2.core < req.core ∨ l.2.ram < req.ram ∨ l.2.disk < req.disk) with
+    | true => simpa using hc
+    | false =>
+      exfalso
+      have hc' : ¬ (l.2.core < req.core ∨ l.2.ram < req.ram ∨ l.2.disk < req.disk) := by simpa using hc
+      have : le3 req l.2 = true := by
+        simp only [le3, Bool.and_eq_true, decide_eq_true_eq]; omega
+      simp_all
+  · intro h e he
+    have hle := hd e he
+    cases hh : le3 req e.2 with
+    | false => rfl
+    | true =>
+      exfalso
+      simp only [le3, Bool.and_eq_true, decide_eq_true_eq] at hh hle
+      omega
+
+/-- **Largest otherwise**: a request that exceeds the catalogue in any single dimension (whatever the other two are) gets the
+last entry, which dominates every entry. -/
+theorem sizing_fallback_any_dimension (cat : List (String × Size)) (hd : LastDominates cat = true) (l : String × Size)
+    (hl : cat.getLast? = some l) (req : Size)
+    (h : l.2.core < req.core ∨ l.2.ram < req.ram ∨ l.2.disk < req.disk) :
+    pick cat req = some l.1 ∧ ∀ e ∈ cat, le3 e.2 l.2 = true := by
+  refine ⟨?_, ?_⟩
+  · rw [sizing_fallback cat req ((unsatisfiable_iff_exceeds cat hd l hl req).mpr h), hl]; rfl
+  · simpa only [LastDominates, hl, List.all_eq_true] using hd
+
+/-- ... and a request within the largest size in every dimension is never answered by the fallback rule: some size satisfies it -/
+theorem satisfiable_of_within (cat : List (String × Size)) (l : String × Size) (hl : cat.getLast? = some l) (req : Size)
+    (h : le3 req l.2 = true) : ∃ e ∈ cat, le3 req e.2 = true := ⟨l, List.mem_of_getLast? hl, h⟩
+
+theorem current_last : instanceCatalog.getLast? = some ("fabric.c64.m256.d1000", ⟨64, 256, 1000⟩) := by decide +kernel
+
+/-- the current catalogue: every request with more than 64 cores OR more than 256 G RAM OR more than 1000 G disk maps to the
+largest size -/
+theorem current_fallback (req : Size) (h : 64 < req.core ∨ 256 < req.ram ∨ 1000 < req.disk) :
+    pick instanceCatalog req = some "fabric.c64.m256.d1000" :=
+  (sizing_fallback_any_dimension instanceCatalog current_last_dominates _ current_last req h).1
+
+/-- the current catalogue, every request: the answer is a catalogued size; it satisfies the request and is Pareto-minimal among
+the satisfying sizes exactly when the request is within (64, 256, 1000), and it is the largest size otherwise -/
+theorem current_sizing_total (req : Size) :
+    (le3 req ⟨64, 256, 1000⟩ = true ∧ ∃ e ∈ instanceCatalog, pick instanceCatalog req = some e.1 ∧ le3 req e.2 = true ∧
+        ∀ y ∈ instanceCatalog, le3 req y.2 = true → le3 y.2 e.2 = true → y.2 = e.2) ∨
+    (le3 req ⟨64, 256, 1000⟩ = false ∧ pick instanceCatalog req = some "fabric.c64.m256.d1000") := by
+  cases h : le3 req ⟨64, 256, 1000⟩ with
+  | true =>
+    left
+    refine ⟨rfl, ?_⟩
+    exact sizing_sufficient_minimal instanceCatalog req (satisfiable_of_within instanceCatalog _ current_last req h)
+  | false =>
+    right
+    refine ⟨rfl, current_fallback req ?_⟩
+    cases hc : decide (64 < req.core ∨ 256 < req.ram ∨ 1000 < req.disk) with
+    | true => simpa using hc
+    | false =>
+      exfalso
+      have hc' : ¬ (64 < req.core ∨ 256 < req.ram ∨ 1000 < req.disk) := by simpa using hc
+      have : le3 req ⟨64, 256, 1000⟩ = true := by simp only [le3, Bool.and_eq_true, decide_eq_true_eq]; omega
+      simp_all
 
 /- Names of the current catalogue are distinct because the catalogue is a JSON object loaded into a
 Python dict (keys unique by construction); the translator raises an extraction failure on a
@@ -237,14 +328,14 @@ theorem range_getElem? {α} (l : List α) : (List.range l.length).map (fun i => 
   · simp [h, List.getElem?_eq_none (Nat.le_of_not_lt h)]
 
 theorem genIfaces_names (e : CEntry) (name : String) ids labels :
-    (genIfaces e name ids labels).map (·.name) = e.ifaces.map (fun p => name ++ "-" ++ p.1) := by
+    (genIfaces e name ids labels).map (·.name) = e.ifaces.map (fun p => name ++ ifaceSep ++ p.1) := by
   simp only [genIfaces, List.map_map, Function.comp_def]
-  exact zipIdx_map_fst' e.ifaces (fun p => name ++ "-" ++ p.1)
+  exact zipIdx_map_fst' e.ifaces (fun p => name ++ ifaceSep ++ p.1)
 
 theorem genIfaces_bw (e : CEntry) (name : String) ids labels :
-    (genIfaces e name ids labels).map (·.bw) = e.ifaces.map (fun p => if sharedTypes.contains e.type then 0 else p.2) := by
+    (genIfaces e name ids labels).map (·.bw) = e.ifaces.map (fun p => portBw e.type p.2) := by
   simp only [genIfaces, List.map_map, Function.comp_def]
-  exact zipIdx_map_fst' e.ifaces (fun p => if sharedTypes.contains e.type then 0 else p.2)
+  exact zipIdx_map_fst' e.ifaces (fun p => portBw e.type p.2)
 
 theorem genIfaces_kind (e : CEntry) (name : String) ids labels :
     ∀ i ∈ genIfaces e name ids labels, i.kind = portKind e.type := by
@@ -278,8 +369,8 @@ theorem genIfaces_units (e : CEntry) (name : String) ids (ls : List Bdf) (hl : l
 /-- what the property demands of a generated component `g` for catalogue entry `e` -/
 def Matches (e : CEntry) (name : String) (ids : Option (List String)) (labels : Option (List Bdf)) (g : GComp) : Prop :=
   g.model = e.model ∧ g.type = e.type ∧ g.details = e.details ∧
-  g.ifaces.map (·.name) = e.ifaces.map (fun p => name ++ "-" ++ p.1) ∧
-  g.ifaces.map (·.bw) = e.ifaces.map (fun p => if sharedTypes.contains e.type then 0 else p.2) ∧
+  g.ifaces.map (·.name) = e.ifaces.map (fun p => name ++ ifaceSep ++ p.1) ∧
+  g.ifaces.map (·.bw) = e.ifaces.map (fun p => portBw e.type p.2) ∧
   (∀ i ∈ g.ifaces, i.kind = portKind e.type) ∧
   (∀ l, e.hasIfaces = true → ids = some l → g.ifaces.map (·.nodeId) = l.map some) ∧
   (∀ ls, labels = some ls → g.ifaces.map (·.labelIdx) = (List.range e.ifaces.length).map some) ∧
@@ -371,11 +462,216 @@ in order, and (for the current catalogue) with pairwise distinct names -/
 theorem enum_length (cat : List CEntry) : (enumNames cat).length = cat.length := by simp [enumNames]
 theorem current_enum_nodup : (enumNames componentCatalog).Nodup := by decide +kernel
 
+/-! #### every catalogued model generates, with the right service, kinds and speeds -/
+
+/-- the argument shapes `generate_component` accepts for entry `e` -/
+def Consistent (e : CEntry) (ids : Option (List String)) (labels : Option (List Bdf)) : Prop :=
+  match ids, labels with
+  | some l, some ls => l.length = e.ifaces.length ∧ ls.length = e.ifaces.length
+  | some _, none => e.hasIfaces = false
+  | none, some ls => e.ifaces.length ≤ ls.length
+  | none, none => True
+
+/-- what a successful generation returns: the bare component for an entry without interfaces, `generate.mk` otherwise -/
+theorem generate_ok_shape (cat : List CEntry) (name model type : String) (nsId : Option String)
+    (ids : Option (List String)) (labels : Option (List Bdf)) (parent : Option String) (g : GComp)
+    (h : generate cat name model type nsId ids labels parent = .ok g) :
+    ∃ e, lookup cat model type = some e ∧
+      ((e.hasIfaces = false ∧ g = { model := e.model, type := e.type, details := e.details, nsName := none, nsType := none,
+                                    nsId := none, ifaces := [] }) ∨
+       (e.hasIfaces = true ∧ g = generate.mk name nsId parent e ids labels)) := by
+  unfold generate at h
+  cases hl : lookup cat model type with
+  | none => simp [hl] at h
+  | some e =>
+    simp only [hl] at h
+    refine ⟨e, rfl, ?_⟩
+    by_cases hi : e.hasIfaces = true
+    · right
+      refine ⟨hi, ?_⟩
+      simp only [hi, Bool.not_true, Bool.false_eq_true, if_false] at h
+      cases ids with
+      | none =>
+        cases labels with
+        | none => simp only [Except.ok.injEq] at h; exact h.symm
+        | some ls =>
+          by_cases hlen : ls.length < e.ifaces.length
+          · simp [hlen] at h
+          · simp only [hlen, if_false, Except.ok.injEq] at h; exact h.symm
+      | some l =>
+        cases labels with
+        | none => by_cases hlen : l.length = e.ifaces.length <;> simp [hlen] at h
+        | some ls =>
+          by_cases hlen : l.length = e.ifaces.length
+          · by_cases hlen2 : ls.length = e.ifaces.length
+            · simp only [hlen, hlen2, bne_self_eq_false, Bool.false_eq_true, if_false, Except.ok.injEq] at h
+              exact h.symm
+            · simp [hlen, hlen2] at h
+          · simp [hlen] at h
+    · left
+      have hi' : e.hasIfaces = false := by simpa using hi
+      simp only [hi', Bool.not_false, if_true, Except.ok.injEq] at h
+      exact ⟨hi', h.symm⟩
+
+/-- the network service of a generated component: none for an entry without interfaces; otherwise named
+`[<parent><sep>]<name><suffix of the type>`, of the type's service type, with the caller's id when one was given -/
+theorem generated_service (cat : List CEntry) (name model type : String) (nsId : Option String)
+    (ids : Option (List String)) (labels : Option (List Bdf)) (parent : Option String) (g : GComp)
+    (h : generate cat name model type nsId ids labels parent = .ok g) :
+    ∃ e, lookup cat model type = some e ∧
+      (e.hasIfaces = false → g.nsName = none ∧ g.nsType = none ∧ g.nsId = none ∧ g.ifaces = []) ∧
+      (e.hasIfaces = true →
+        g.nsName = some (svcName parent name (rowOf e.type).suffix) ∧
+        g.nsType = some (rowOf e.type).nsType ∧ g.nsId = nsId ∧ g.ifaces.length = e.ifaces.length) := by
+  obtain ⟨e, hl, hs⟩ := generate_ok_shape cat name model type nsId ids labels parent g h
+  refine ⟨e, hl, ?_, ?_⟩
+  · intro hi
+    rcases hs with ⟨_, rfl⟩ | ⟨hi', _⟩
+    · exact ⟨rfl, rfl, rfl, rfl⟩
+    · simp [hi] at hi'
+  · intro hi
+    rcases hs with ⟨hi', _⟩ | ⟨_, rfl⟩
+    · simp [hi] at hi'
+    · refine ⟨rfl, rfl, rfl, ?_⟩
+      simp [generate.mk, genIfaces]
+
+/-- generation succeeds whenever the model is catalogued under the type and the id/label lists have the entry's length -/
+theorem generate_ok_of_consistent (cat : List CEntry) (name model type : String) (nsId : Option String)
+    (ids : Option (List String)) (labels : Option (List Bdf)) (parent : Option String) (e : CEntry)
+    (hl : lookup cat model type = some e) (hc : Consistent e ids labels) :
+    ∃ g, generate cat name model type nsId ids labels parent = .ok g := by
+  unfold generate
+  simp only [hl]
+  by_cases hi : e.hasIfaces = true
+  · simp only [hi, Bool.not_true, Bool.false_eq_true, if_false]
+    cases ids with
+    | none =>
+      cases labels with
+      | none => exact ⟨_, rfl⟩
+      | some ls =>
+        have : ¬ ls.length < e.ifaces.length := by simp only [Consistent] at hc; omega
+        simp only [this, if_false]; exact ⟨_, rfl⟩
+    | some l =>
+      cases labels with
+      | none => simp [Consistent, hi] at hc
+      | some ls =>
+        simp only [Consistent] at hc
+        simp only [hc.1, hc.2, bne_self_eq_false, Bool.false_eq_true, if_false]; exact ⟨_, rfl⟩
+  · have hi' : e.hasIfaces = false := by simpa using hi
+    simp only [hi', Bool.not_false, if_true]; exact ⟨_, rfl⟩
+
+/-- **Every catalogued model, and every alias, generates its own entry**: for any catalogue without shadowing, any entry,
+any of its names and any consistent arguments the generation succeeds and the component matches THAT entry. -/
+theorem catalogued_model_generates (cat : List CEntry) (hns : NoShadow cat) (hwf : WFCat cat) (e : CEntry) (he : e ∈ cat)
+    (m : String) (hm : m = e.model ∨ m ∈ e.also) (name : String) (nsId : Option String)
+    (ids : Option (List String)) (labels : Option (List Bdf)) (parent : Option String) (hc : Consistent e ids labels) :
+    ∃ g, generate cat name m e.type nsId ids labels parent = .ok g ∧ Matches e name ids labels g := by
+  have hl : lookup cat m e.type = some e := by
+    rcases hm with rfl | hm
+    · exact (lookup_finds_own_entry cat hns e he).1
+    · exact (lookup_finds_own_entry cat hns e he).2 m hm
+  obtain ⟨g, hg⟩ := generate_ok_of_consistent cat name m e.type nsId ids labels parent e hl hc
+  obtain ⟨e', hl', hmatch⟩ := generated_matches_entry cat hwf name m e.type nsId ids labels parent g hg
+  rw [hl] at hl'
+  cases hl'
+  exact ⟨g, hg, hmatch⟩
+
+/-- the current catalogue satisfies the hypotheses: every one of its models and aliases generates its own entry -/
+theorem current_models_generate (e : CEntry) (he : e ∈ componentCatalog) (m : String) (hm : m = e.model ∨ m ∈ e.also)
+    (name : String) (nsId : Option String) (ids : Option (List String)) (labels : Option (List Bdf)) (parent : Option String)
+    (hc : Consistent e ids labels) :
+    ∃ g, generate componentCatalog name m e.type nsId ids labels parent = .ok g ∧ Matches e name ids labels g :=
+  catalogued_model_generates componentCatalog current_no_shadow current_wf e he m hm name nsId ids labels parent hc
+
+/-- the generated per-type rules are the ones the property names: dedicated ports with the catalogued speed for SmartNIC and
+FPGA components, shared ports without a speed (best effort) for SharedNIC components; every catalogued component type that
+has interfaces has a port kind -/
+theorem current_type_rules :
+    portKind "SmartNIC" = "DedicatedPort" ∧ portKind "FPGA" = "DedicatedPort" ∧ portKind "SharedNIC" = "SharedPort" ∧
+    (rowOf "SmartNIC").speed = true ∧ (rowOf "FPGA").speed = true ∧ (rowOf "SharedNIC").speed = false ∧
+    componentCatalog.all (fun e => !e.hasIfaces || (portKind e.type != "" && typeTable.any (fun r => r.type == e.type))) = true := by
+  decide
+
+theorem portBw_spec (type : String) (s : Nat) : portBw type s = if (rowOf type).speed then s else 0 := rfl
+
+/-- the enumeration: one member per catalogue entry, in order, named after type and model, and generating by a member (which
+resolves to its entry's `Type`/`Model`) finds that very entry -/
+theorem enum_exact (cat : List CEntry) : enumNames cat = cat.map (fun c => massage c.type ++ "_" ++ massage c.model) := rfl
+
+theorem current_enum_members_resolve (e : CEntry) (he : e ∈ componentCatalog) :
+    lookup componentCatalog e.model e.type = some e :=
+  (lookup_finds_own_entry componentCatalog current_no_shadow e he).1
+
+/-! #### generated objects are fresh -/
+
+theorem allocObjs_eq (next n : Nat) : allocObjs next n = List.range' next n := by
+  simp [allocObjs, freshObjects]
+
+theorem sessionObjs_bounds (cat : List CEntry) (reqs : List (String × String × Option (List String) × Option (List Bdf))) :
+    ∀ next, ∀ l ∈ sessionObjs cat next reqs, ∀ i ∈ l, next ≤ i := by
+  induction reqs with
+  | nil => intro next l hl; simp [sessionObjs] at hl
+  | cons r rest ih =>
+    intro next l hl i hi
+    obtain ⟨model, type, ids, labels⟩ := r
+    simp only [sessionObjs] at hl
+    split at hl
+    · split at hl
+      · rename_i e _
+        rcases List.mem_cons.mp hl with rfl | hl'
+        · rw [allocObjs_eq] at hi
+          exact (List.mem_range'_1.mp hi).1
+        · have := ih _ l hl' i hi
+          omega
+      · exact ih _ l hl i hi
+    · exact ih _ l hl i hi
+
+/-- **Freshness**: the components generated in one session own pairwise disjoint sets of library-made objects, each without
+repetition, and none of them is an object that existed before the session (`< next`). -/
+theorem generated_objects_fresh (cat : List CEntry) (reqs : List (String × String × Option (List String) × Option (List Bdf))) :
+    ∀ next, (sessionObjs cat next reqs).Pairwise (fun a b => ∀ i ∈ a, i ∉ b) ∧
+      (∀ l ∈ sessionObjs cat next reqs, l.Nodup) ∧ (∀ l ∈ sessionObjs cat next reqs, ∀ i ∈ l, next ≤ i) := by
+  intro next
+  refine ⟨?_, ?_, sessionObjs_bounds cat reqs next⟩
+  · induction reqs generalizing next with
+    | nil => simp [sessionObjs]
+    | cons r rest ih =>
+      obtain ⟨model, type, ids, labels⟩ := r
+      simp only [sessionObjs]
+      split
+      · split
+        · rename_i e _
+          refine List.pairwise_cons.mpr ⟨?_, ih _⟩
+          intro b hb i hi hib
+          rw [allocObjs_eq] at hi
+          have h1 := (List.mem_range'_1.mp hi).2
+          have h2 := sessionObjs_bounds cat rest _ b hb i hib
+          omega
+        · exact ih _
+      · exact ih _
+  · induction reqs generalizing next with
+    | nil => intro l hl; simp [sessionObjs] at hl
+    | cons r rest ih =>
+      obtain ⟨model, type, ids, labels⟩ := r
+      intro l hl
+      simp only [sessionObjs] at hl
+      split at hl
+      · split at hl
+        · rcases List.mem_cons.mp hl with rfl | hl'
+          · rw [allocObjs_eq]; exact List.nodup_range'
+          · exact ih _ l hl'
+        · exact ih _ l hl
+      · exact ih _ l hl
+
 /-! Non-vacuity: a real entry is found and its generated component matches. -/
 example : (lookup componentCatalog "Alveo U280" "FPGA").map (·.model) = some "Xilinx-U280" := by decide +kernel
 example : ∃ g, generate componentCatalog "nic1" "ConnectX-6" "SmartNIC" none (some ["a", "b"])
     (some [.scalar 12, .list 3]) (some "n") = .ok g ∧ g.ifaces.map (·.units) = [unitsOf (.scalar 12), 3] :=
   ⟨_, rfl, by decide +kernel⟩
+example : Consistent ⟨"m", [], "SmartNIC", "d", true, [("p1", 100), ("p2", 100)]⟩ (some ["a", "b"]) (some [.none, .list 2]) := ⟨rfl, rfl⟩
+example : sessionObjs componentCatalog 5 [("ConnectX-6", "SmartNIC", none, none), ("RTX6000", "GPU", none, none),
+    ("ConnectX-6", "SharedNIC", some ["i"], some [.list 2])] = [[5,6,7,8,9,10,11,12,13,14], [15], [16,17,18,19,20,21]] := by
+  decide +kernel
 example : ∃ e ∈ instanceCatalog, le3 ⟨3, 5, 11⟩ e.2 = true := ⟨("fabric.c4.m8.d100", ⟨4, 8, 100⟩), by decide +kernel, by decide⟩
 
 end FimVerif.C18
